@@ -83,6 +83,22 @@ def inputs(ctx):
                     fr = rng.choice(gen.FRAMINGS) if tier == "quick" else None
                     for framing in ([fr] if fr else ["none", "proto2", "proto4frame"]):
                         yield f"voc-call-{r}-{c}-{fate}-{framing}", gen.frame(gen.apply_fate(call, fate), framing), True
+    # names that are str.format / %-templates: a report built by formatting text that already contains the
+    # pickle's names resolves the replacement fields against live objects (attribute and item look-ups)
+    roots = ["0", "trigger", "severity", "self", "node", "shortened", "message", "result", "context", "pickled",
+             "analysis", "module", "name"]
+    for root in roots:
+        for path in (".__init__.__globals__[sys].modules[vp_loaded_canary].probe",
+                     ".__class__.__init__.__globals__[sys].modules[vp_loaded_canary].probe",
+                     ".__class__.__mro__[1].__subclasses__"):
+            tpl = "{" + root + path + "}"
+            for (m, n) in (("os", tpl), (tpl, "system"), ("vp_sink", tpl), ("torch.hub", tpl)):
+                for r in ("GLOBAL", "STACK_GLOBAL"):
+                    if " " in m or " " in n:
+                        continue
+                    g = gen.push_global(r, m, n)
+                    yield f"template-{r}", g + b".", True
+                    yield f"template-{r}-call", g + b"(K\x01tR.", True
     # computed operands: the value an opcode needs (module / attribute string of STACK_GLOBAL, a callee, a
     # state, a persistent id ...) is itself the result of a call on constants - an interpreter that
     # "resolves" such calls to report better names would execute input-chosen callables (codec lookups
